@@ -26,7 +26,7 @@ REQUIRED_THEOREMS = ['preprocess_length_of', 'recodePairs_single', 'preprocess_l
                      'dateBasic_fixed_covers_match', 'dateBasic_first_occurrence', 'mdtLoop_total_fixed', 'mergeDateAndTime_raises',
                      'rangePairTok_fixed_starts_at_word', 'rangePairTok_fixed_clear_of_previous',
                      # RTV.Props.C01DtExtract2: the remaining sub-extractors (date / time / date-time period, set, holiday)
-                     'centuryOne_inside_iff', 'century_overrun_witness', 'centuryOne_fixed_inside', 'yearPeriod_reversed', 'yearPeriod_empty_entity_witness', 'yearPeriod_fixed_inside', 'singleTimePoint_inside', 'complexInputs_ok', 'firstOccToks_inside', 'tpPoints_ok', 'tpMergeTwoTimePoints_mem', 'dtpDateWithTimePeriod_inside', 'dtpMatchDuration_inside_partial', 'dtpDuration_previous_overrun', 'todDates_inside', 'todAdjOne_inside', 'prefixDayOne_inside', 'prefixDay_leading_blank_witness', 'dtpDateWithSuffix_inside', 'matchEachCut_inside', 'matchEachWeekday_inside_partial', 'holidayMatch_inside', 'extractor_results_ok']
+                     'centuryOne_inside_iff', 'century_overrun_witness', 'centuryOne_fixed_inside', 'yearPeriod_reversed', 'yearPeriod_empty_entity_witness', 'yearPeriod_fixed_inside', 'singleTimePoint_inside', 'complexInputs_ok', 'firstOccToks_inside', 'tpPoints_ok', 'tpMergeTwoTimePoints_mem', 'dtpDateWithTimePeriod_inside', 'dtpMatchDuration_inside_partial', 'dtpDuration_previous_overrun', 'todDates_inside', 'todAdjOne_inside', 'dtpTimeOfDay_inside', 'dtpMatchDurationV_fixed_inside', 'prefixDayOne_inside', 'prefixDay_leading_blank_witness', 'dtpDateWithSuffix_inside', 'matchEachCut_inside', 'matchEachWeekday_inside_partial', 'holidayMatch_inside', 'extractor_results_ok']
 RULE = ('preprocess: every code point (blocks of 200 separated by blanks, both case modes) + seeded strings over a pool '
         'with full-width forms, U+0130, sigma, unit tokens; pipeline and unit level as C12 with oracle spanOK; '
         'non-trivial = distinct query with at least one entity / distinct recorded call with at least one result')
